@@ -574,6 +574,7 @@ fn snapshot(engine: &TieredEngine, st: &Strat, p: &Pools, ids: &[u64]) -> (Snaps
 }
 
 fn run_case(c: &Case) -> RunResult {
+    kvh::panicrec::set_input_debug(c);
     let p = Pools::new(c.cosine);
     let st = make_strategy(c.strategy, c.cap_a, c.cap_b);
     let cfg = TieredEngineConfig {
@@ -1123,6 +1124,7 @@ Definition vl (cosine : bool) (v : vec) : bool :=
 }
 
 fn main() {
+    kvh::panicrec::install();
     let args: Vec<String> = std::env::args().collect();
     let mut out = String::from("/verif/.cache/run/C04");
     let mut n = 300usize;
